@@ -410,7 +410,11 @@ fn scenario(scn: &Scn, seen: &mut Seen) -> Outcome {
                         e2.store(true, Relaxed);
                         let t0 = std::time::Instant::now();
                         while !r2.load(Relaxed) && t0.elapsed() < Duration::from_secs(20) {
-                            thread::yield_now();
+                            if cfg!(miri) {
+                                thread::yield_now();
+                            } else {
+                                thread::sleep(Duration::from_micros(100));
+                            }
                         }
                     });
                     if !ok {
